@@ -105,7 +105,7 @@ class Check:
             else:
                 new_v.append(v)
         for k, v in sorted(seen_known.items()):
-            print("KNOWN-FINDING: property=%s %s" % (self.pid, known[k]))
+            print("KNOWN-FINDING: %s" % known[k])
         # de-duplicate new violations by key
         uniq = {}
         for v in new_v:
